@@ -303,9 +303,9 @@ func (s *sys) goLookup(i int, d Def) string {
 type table map[string]map[string]bool // name → candidate tags (last-wins or first-wins are both legal on a temporary VM)
 
 type model struct {
-	base  map[string]string // name → tag
-	temps []table
-	maybe []table // definitions of a faulted snippet: may or may not have been registered
+	base      map[string]string // name → tag
+	temps     []table
+	maybe     []table // definitions of a faulted snippet: may or may not have been registered
 	baseMaybe table
 }
 
